@@ -11,10 +11,16 @@
          nothing brings a removed object back; at most one deletion of an object succeeds; a snapshot returns exactly
          the objects present at its instant; registry membership is decided by the last operation naming the
          application; a subscription is neither lost nor resurrected and never outlives its owner's registration.
-   Not mechanised: the reduction from (1)+(2) to (3) (a critical section behaves atomically with respect to the fields
-   its lock protects), CPython's switch points, and the composition of several critical sections into one interface
-   call - the last is what the run-time linearizability check against LdmConc.ldm_run examines (harness/c16.py). *)
-From FlexVerif Require Import Base.Prelude Base.Interleave Model.LdmConc Gen.LdmLockSummary Proofs.LdmConcProofs.
+     (4) the reduction from (1)+(2) towards (3), in a memory semantics where a write stores an ARBITRARY function of
+         everything its thread has read: every critical section of the database lock, of the service lock and of the
+         two reactive time-stamp locks is CLOSED (touches only fields written under that lock), and a closed section
+         computes exactly what its body computes running alone from the memory at its start, whatever the other threads
+         do meanwhile (C16_sections_atomic) - so each DictionaryDataBase method is one atomic operation on
+         (store, id counter); for every lock, steps of other threads never change a field written under a held lock.
+   Not mechanised: the correspondence between a source line and the abstract Rd/Wr actions of the summary, CPython's
+   switch points, and the composition of several critical sections into one interface call - the last is what the
+   run-time linearizability check against LdmConc.ldm_run examines (harness/c16.py). *)
+From FlexVerif Require Import Base.Prelude Base.Interleave Base.Atomic Model.LdmConc Gen.LdmLockSummary Proofs.LdmConcProofs Proofs.AtomicLdm.
 
 Theorem C16_summary_names :
   (LL_DictionaryDataBase_lock, LL_LDMMaintenanceThread_data_containers_lock, LL_LDMMaintenanceReactive_lock,
@@ -65,6 +71,30 @@ Theorem C16_no_deadlock : forall progs c, from_ldm_summary progs -> reachable (i
   (exists i t, nth_error c i = Some t /\ t_prog t <> []) -> exists k, enabled c k = true.
 Proof. exact ldm_deadlock_free. Qed.
 Print Assumptions C16_no_deadlock.
+
+(* ---- (4) critical sections are atomic ---- *)
+Theorem C16_closed_sections :
+  forallb (fun l => forallb (all_sections_closed ldm_policy l) ldm_summary) ldm_closed_locks = true.
+Proof. exact ldm_closed_sections. Qed.
+Print Assumptions C16_closed_sections.
+
+Theorem C16_sections_atomic : forall (wv : Z -> list Z -> Z) progs m0 s1 s2 i t1 t2 l m pre r tail ls1 ls2,
+  from_ldm_summary progs -> In l ldm_closed_locks -> In m ldm_summary -> m = pre ++ Acq l :: r ->
+  msteps wv (minit progs m0) s1 -> msteps wv s1 s2 ->
+  nth_error (m_cfg s1) i = Some t1 -> t_prog t1 = r ++ tail -> nth_error (m_loc s1) i = Some ls1 ->
+  exists body rest, r = body ++ Rel l :: rest /\ closed ldm_policy l [] body = true /\
+    (nth_error (m_cfg s2) i = Some t2 -> t_prog t2 = Rel l :: rest ++ tail -> nth_error (m_loc s2) i = Some ls2 ->
+     agree ldm_policy l (m_mem s2) (fst (run_seq wv body (m_mem s1) ls1)) /\ ls2 = snd (run_seq wv body (m_mem s1) ls1)).
+Proof. exact ldm_sections_atomic. Qed.
+Print Assumptions C16_sections_atomic.
+
+Theorem C16_section_isolation : forall (wv : Z -> list Z -> Z) progs s i ti j tj a r ls l,
+  from_ldm_summary progs -> reachable (initial progs) (m_cfg s) ->
+  nth_error (m_cfg s) i = Some ti -> holds ti l = true ->
+  nth_error (m_cfg s) j = Some tj -> j <> i -> t_prog tj = a :: r ->
+  agree ldm_policy l (m_mem s) (fst (act_mem wv a (m_mem s) ls)).
+Proof. exact ldm_section_isolation. Qed.
+Print Assumptions C16_section_isolation.
 
 (* ---- every order of the atomic operations ---- *)
 Theorem C16_identifiers_unique : forall ops, NoDup (inserted_ids (snd (db_run db_init ops))).
